@@ -400,5 +400,43 @@ theorem splitOther_render (ds : List Str) (h : WfDs ds) (pa : Str) (hp : PatchSh
     subst hpa
     simp [h2]
 
+/-! ### Canonical decimal rendering of natural numbers -/
+
+theorem isDigit_of_core {c : Char} (h : c.isDigit = true) : isDigit c = true := by
+  simp only [Char.isDigit, Bool.and_eq_true, decide_eq_true_eq] at h
+  simp only [isDigit, Bool.and_eq_true, decide_eq_true_eq]
+  exact ⟨Char.le_def.mpr h.1, Char.le_def.mpr h.2⟩
+
+theorem decVal_eq (d : Str) : decVal d = Nat.ofDigitChars 10 d 0 := by
+  have : (fun acc (c : Char) => acc * 10 + (c.toNat - '0'.toNat)) = (fun sofar (c : Char) => 10 * sofar + (c.toNat - '0'.toNat)) := by
+    funext a c; rw [Nat.mul_comm]
+  simp only [decVal, Nat.ofDigitChars, this]
+
+theorem natToStr_isNum (n : Nat) : IsNum (natToStr n) := by
+  simp only [natToStr, Nat.toList_repr]
+  exact ⟨Nat.toDigits_ne_nil, List.all_eq_true.mpr (fun c hc => isDigit_of_core (Nat.isDigit_of_mem_toDigits (by decide) (by decide) hc))⟩
+
+theorem decVal_natToStr (n : Nat) : decVal (natToStr n) = n := by
+  rw [decVal_eq]; simp only [natToStr, Nat.toList_repr]; exact Nat.ofDigitChars_ten_toDigits
+
+/-- the usual text of a version given by its numbers: `[10, 0] ↦ "10.0"` -/
+def verText (ns : List Nat) : Str := render (ns.map natToStr)
+
+theorem wfDs_canon (ns : List Nat) (h : ns ≠ []) : WfDs (ns.map natToStr) :=
+  ⟨by simpa using h, fun d hd => by obtain ⟨n, _, rfl⟩ := List.mem_map.mp hd; exact natToStr_isNum n⟩
+
+theorem vals_canon (ns : List Nat) : vals (ns.map natToStr) = ns := by
+  induction ns with
+  | nil => rfl
+  | cons n rest ih => simp only [vals, List.map_cons, decVal_natToStr, List.cons.injEq, true_and] at ih ⊢; exact ih
+
+theorem verText_len_two (ns : List Nat) (h : 2 ≤ ns.length) : 2 ≤ (verText ns).length := by
+  match ns, h with
+  | a :: b :: rest, _ =>
+    have := (natToStr_isNum a).1
+    have hl : 0 < (natToStr a).length := List.length_pos_iff.mpr this
+    simp only [verText, render, List.map_cons, join, List.append_assoc, List.singleton_append, List.length_append, List.length_cons]
+    omega
+
 end Version
 end SshAudit
